@@ -381,3 +381,38 @@ Proof.
   intros H1 Ht Hb H2. pose proof (call_reachable _ _ _ H1) as A.
   eapply coal_after_torn_run; eauto. exact (c2_torn _ (proj2 A) Ht Hb).
 Qed.
+
+(* ---- what exec can observe from writeContext (coalescing writer) ---- *)
+
+Lemma coal_exec_view_lemma has_to ls s t n e :
+  crun has_to c_init ls = Some s -> c_broken s = false -> result_of (c_thr s) t = Some (n, e) ->
+  let f := frame_of (c_thr s) t in
+  (e = None /\ n = length f /\ frame_present (frame_of (c_thr s)) t (c_wire s))
+  \/ (e <> None /\ n = 0 /\ forall ls2 s2, crun has_to s ls2 = Some s2 -> bytes_of t (c_wire s2) = [])
+  \/ (e <> None /\ 0 < n < length f /\ must_close (n, e) = true /\ bytes_of t (c_wire s) = firstn n f /\
+      forall ls2 s2, crun has_to s ls2 = Some s2 -> c_wire s2 = c_wire s)
+  \/ (e <> None /\ 0 < n /\ n = length f /\ must_close (n, e) = true /\ frame_present (frame_of (c_thr s)) t (c_wire s)).
+Proof.
+  intros Hrun Hb Hr. cbv zeta. pose proof (cinv_reachable _ _ _ Hrun) as I.
+  destruct e as [x|].
+  2: { left. split; [reflexivity|]. exact (coal_success_whole_lemma has_to ls s Hrun t n Hb Hr). }
+  right. pose proof (coal_count_exact_lemma has_to ls s Hrun t n (Some x) Hb Hr) as Hbytes.
+  destruct (Nat.eq_dec n 0) as [->|Hn0].
+  - left. split; [discriminate|]. split; [reflexivity|]. intros ls2 s2 H2.
+    destruct (coal_result_final_lemma has_to ls ls2 s s2 t _ Hrun H2 Hr) as [_ Hb2]. rewrite Hb2, Hbytes. reflexivity.
+  - right. assert (Hin : In (t, n) (c_hist s)).
+    { destruct (ci_count s I Hb t _ Hr) as [H|[H _]]; simpl in *; [exact H|lia]. }
+    pose proof (ci_bound s I t n Hin) as Hle.
+    assert (Hmc : must_close (n, Some x) = true) by (apply must_close_partial; lia).
+    destruct (Nat.eq_dec n (length (frame_of (c_thr s) t))) as [Heq|Hne].
+    + right. split; [discriminate|]. split; [lia|]. split; [exact Heq|]. split; [exact Hmc|].
+      rewrite (ci_wire s I). apply in_pieces_present. rewrite <- Heq. exact Hin.
+    + left. split; [discriminate|]. split; [lia|]. split; [exact Hmc|]. split; [exact Hbytes|].
+      assert (Ht : c_torn s = true).
+      { destruct (c_torn s) eqn:Et; [reflexivity|]. exfalso.
+        destruct (ci_shape_b s I Et t n Hin) as [[H|H]|[dn [rest [m H]]]]; simpl in H; try lia.
+        assert (Hq : pc_of (c_thr s) t = Some PQueued).
+        { apply (ci_queued s I). rewrite H. simpl. rewrite !in_app_iff. simpl. auto. }
+        unfold result_of in Hr. rewrite Hq in Hr. discriminate. }
+      intros ls2 s2 H2. eapply coal_nothing_after_partial_lemma; eauto.
+Qed.
